@@ -386,6 +386,19 @@ func (e *Exec) fieldPath(st *State, base Val, path []int, pos token.Pos) Val {
 			if viaHeap != "" && isSlcSort(cur.T.Sort) && e.inContract == 0 {
 				cur.Orig = unionOrig(cur.Orig, map[string]bool{viaHeap + "." + f.Name(): true})
 			}
+			// a reference stored in the heap was allocated before it was stored: it is below the
+			// allocation counter (so later allocations differ from it)
+			if viaHeap != "" && e.binders == 0 && cur.T.Sort == SInt && st.specHeaps == nil {
+				switch f.Type().Underlying().(type) {
+				case *types.Pointer, *types.Map, *types.Chan:
+					cnt, ok := st.ghosts["alloc"]
+					if !ok {
+						cnt = Val{T: e.sc.Const("alloc0", SInt)}
+						e.sc.Assert(Gt(cnt.T, IntLit(0)))
+					}
+					e.assume(st, And(Ge(cur.T, IntLit(0)), Lt(cur.T, cnt.T)))
+				}
+			}
 		}
 		e.typeFactsGlobal(cur)
 	}
@@ -631,7 +644,16 @@ func (e *Exec) evElem(st *State, x ast.Expr, t types.Type) Val {
 
 func (e *Exec) mapValue(st *State, m Val, mt *types.Map) Term {
 	hn, hs := e.mapHeap(mt)
-	return Select(e.heapRead(st, hn, hs), m.T)
+	if isNilVal(m) || m.T.S == "0" {
+		return e.emptyMapTerm(mt)
+	}
+	// a nil map reads as the empty map
+	return Ite(Eq(m.T, IntLit(0)), e.emptyMapTerm(mt), Select(e.heapRead(st, hn, hs), m.T))
+}
+
+func (e *Exec) emptyMapTerm(mt *types.Map) Term {
+	ks, vs := e.sr.sortOf(mt.Key()), e.sr.sortOf(mt.Elem())
+	return MkMap(ks, vs, T(ArraySort(ks, SBool), fmt.Sprintf("((as const %s) false)", ArraySort(ks, SBool))), e.constArray(ks, vs, mt.Elem()))
 }
 
 func (e *Exec) newMap(st *State, mt *types.Map, t types.Type) Val {
@@ -665,6 +687,7 @@ func (e *Exec) mapStore(st *State, m Val, mt *types.Map, k, v Val) {
 	hn, hs := e.mapHeap(mt)
 	ks, vs := e.sr.sortOf(mt.Key()), e.sr.sortOf(mt.Elem())
 	k = e.convertTo(st, k, mt.Key())
+	e.sideOblige(st, "nil-map-write", Not(Eq(m.T, IntLit(0))), token.NoPos)
 	h := e.heapRead(st, hn, hs)
 	cur := Select(h, m.T)
 	nm := MkMap(ks, vs, Store(MapDom(cur), k.T, True), Store(MapVal(cur), k.T, v.T))
@@ -695,6 +718,7 @@ func (e *Exec) mapIterSeq(st *State, m Val, mt *types.Map) Val {
 	// every key of the domain is listed, at position pos(k); pos is injective on listed keys (no duplicates)
 	e.assume(st, T(SBool, fmt.Sprintf("(forall ((k %s)) (! (=> (select %s k) (and (<= 0 (%s k)) (< (%s k) %s) (= (select %s (%s k)) k))) :pattern ((select %s k))))", ks, dom.S, pos, pos, SlcLen(seq).S, arr.S, pos, dom.S)))
 	e.assume(st, T(SBool, fmt.Sprintf("(forall ((j Int)) (! (=> (and (<= 0 j) (< j %s)) (= (%s (select %s j)) j)) :pattern ((select %s j))))", SlcLen(seq).S, pos, arr.S, arr.S)))
+	e.lastIterPos, e.lastIterDom = pos, dom
 	return Val{T: seq, GT: types.NewSlice(mt.Key())}
 }
 
